@@ -1120,6 +1120,21 @@ theorem nsiKernel_backstart_tie (s : Fwd) (h : s.queue ≠ []) :
   have : 0 < s.queue.length := List.length_pos_iff.mpr h
   omega
 
+/-- `for ql in range(queue_len-1, -1, -1)`: the indices `queue_len-1, …, 0` with stride `-1`, i.e. the
+model's `s.queue.reverse` -/
+theorem nsiKernel_backrange_tie (s : Fwd) :
+    s.queue.reverse = ((List.range (ArithC03.nsiBackStart s.queue.length - ArithC03.nsiBackStop).toNat).reverse.map
+      fun ql => s.queue.getD ql 0) ∧ ArithC03.nsiBackStride = -1 := by
+  refine ⟨?_, rfl⟩
+  have h : (ArithC03.nsiBackStart s.queue.length - ArithC03.nsiBackStop).toNat = s.queue.length := by
+    simp only [ArithC03.nsiBackStart, ArithC03.nsiBackStop]; omega
+  rw [h, List.map_reverse]
+  congr 1
+  apply List.ext_getElem
+  · simp
+  · intro i h1 h2
+    simp [List.getD, h1]
+
 end KernelTie
 
 open Pyunicorn.Generated in
